@@ -706,7 +706,7 @@ def _entry_body(r, idx, fi, stmts, X, kind, credits, where):
 
 def d2_scale(ctx, idx, fi, R, N):
     r = ctx.rule('D2.SCALE', 'exactly the entries with grade > 0 are multiplied by the credit and get ok recomputed '
-                 '(list and single results)', floor=12)
+                 '(list and single results)', floor=7)
     pR = ('param', R)
     tb = ai.TermBuilder(idx, fi)
     fi._c17_flags = set()
@@ -814,6 +814,25 @@ def d2_scale(ctx, idx, fi, R, N):
                         'the initialisation does not precede the scaling on every path', lib.loc(fi, inits[0]))
 
 
+def _resolve(t, asg):
+    """Replace conditional expressions whose condition is decided under the assignment by the chosen branch."""
+    if not isinstance(t, tuple) or not t or not isinstance(t[0], str):
+        return t
+    if t[0] == 'ifexp':
+        c = ai.enum_eval(t[1], asg)
+        if c is not ai.UNK:
+            return _resolve(t[2] if c else t[3], asg)
+    out = []
+    for x in t:
+        if isinstance(x, tuple) and x and isinstance(x[0], str):
+            out.append(_resolve(x, asg))
+        elif isinstance(x, tuple):
+            out.append(tuple(_resolve(y, asg) if (isinstance(y, tuple) and y and isinstance(y[0], str) and not (len(y) == 2 and isinstance(y[1], tuple) and y[0].isidentifier() and y[1] and isinstance(y[1][0], str) and False)) else y for y in x))
+        else:
+            out.append(x)
+    return tuple(out)
+
+
 def _note_value(v):
     """(previous-text term, format call term) if v == prev + '<template>'.format(...), else None."""
     if v[0] == 'add' and v[2][0] == 'meth' and v[2][2] == 'format' and v[2][1][0] == 'str':
@@ -823,7 +842,7 @@ def _note_value(v):
 
 def d2_note(ctx, idx, fi, R, N):
     r = ctx.rule('D2.NOTE', "the note 'Maximum credit for attempt #n is p%.' is appended iff the flag is on and a grade changed",
-                 floor=5)
+                 floor=6)
     pR, pN = ('param', R), ('param', N)
     with r:
         credits = _credit_names(fi)
@@ -860,12 +879,13 @@ def d2_note(ctx, idx, fi, R, N):
                     if nv is None and not any(s[0] == 'str' and 'Maximum credit' in s[1] for s in ai.subterms(v)):
                         continue
                     key = ai.enum_eval(k[2], asg)
-                    out[key if key is not ai.UNK else ai.show(k[2])] = v
+                    out[key if key is not ai.UNK else ai.show(k[2])] = _resolve(v, asg)
             return out
 
         table = {}
         problems = []
         text_checked = set()
+        okseen = set()
         for p in live:
             ft = p.env.get(flag, ('param', flag))
             if ft[0] == 'bool':
@@ -908,7 +928,7 @@ def d2_note(ctx, idx, fi, R, N):
                             sig = ai.show(w[want_key])
                             if sig not in text_checked:
                                 text_checked.add(sig)
-                                _note_text(r, w[want_key], ('index', pR, ('str', want_key)), pN, credits, want_key, where, p)
+                                _note_text(r, w[want_key], ('index', pR, ('str', want_key)), pN, credits, want_key, where, p, okseen)
         shown = set()
         for pr in problems:
             kind, case = pr[0], pr[1]
@@ -937,29 +957,32 @@ def d2_note(ctx, idx, fi, R, N):
                              'note %s on every such path' % ('appended' if (m and f) else 'absent'), fi.loc)
 
 
-def _note_text(r, V, cur, pN, credits, want, where, p):
+def _note_text(r, V, cur, pN, credits, want, where, p, okseen):
     label = 'note text -> result[%r]' % want
+    iscred = lambda x: (x[0] == 'param' and x[1] in credits) or _is_credit(x)     # noqa: E731
     nv = _note_value(V)
     if nv is None:
         r.undecided(label, 'appended value `%s` not recognised' % ai.show(V)[:100], where)
         return
     prev, fmt = nv
     if prev not in (cur, ('add', cur, ('str', '\n\n'))):
-        r.violation(label, 'the existing message is not kept in front of the note: `%s`' % ai.show(prev), where)
+        r.undecided(label, 'text in front of the note `%s` not recognised' % ai.show(prev), where)
         return
     template, args = fmt[1][1], fmt[3]
     # positional template: 'Maximum credit for attempt #{} is {}%.'
     if template != NOTE_FORMAT:
         r.violation(label, 'the note text is %r' % template, where, expected=NOTE_FORMAT, found=template)
         return
-    pct = len(args) == 2 and any(s[0] == 'mul' and {s[1], s[2]} & {('param', c) for c in credits}
+    pct = len(args) == 2 and any(s[0] == 'mul' and (iscred(s[1]) or iscred(s[2]))
                                  and ai.num(100) in (s[1], s[2]) for s in ai.subterms(args[1]))
     first_ok = len(args) == 2 and (args[0] == pN or args[0] == ai.num(1))
     if first_ok and pct:
-        r.ok(label, 'format(attempt, credit*100) appended', where)
-    elif len(args) == 2 and args[1] in (pN, ai.num(1)) and any(s[0] == 'param' and s[1] in credits for s in ai.subterms(args[0])):
+        if want not in okseen:
+            okseen.add(want)
+            r.ok(label, 'format(attempt, credit*100) appended', where)
+    elif len(args) == 2 and args[1] in (pN, ai.num(1)) and any(iscred(s) for s in ai.subterms(args[0])):
         r.violation(label, 'the attempt number and the percentage are swapped in the note', where)
-    elif first_ok and any(s[0] == 'mul' and {s[1], s[2]} & {('param', c) for c in credits} and (s[1][0] == 'num' or s[2][0] == 'num')
+    elif first_ok and any(s[0] == 'mul' and (iscred(s[1]) or iscred(s[2])) and (s[1][0] == 'num' or s[2][0] == 'num')
                           for s in ai.subterms(args[1])):
         r.violation(label, 'the percentage `%s` is not credit * 100' % ai.show(args[1]), where, expected='credit * 100', found=ai.show(args[1]))
     else:
